@@ -5,7 +5,7 @@ for d in seeded/*/; do
   key=$(basename "$d"); id=${key%%-*}
   extra=""
   case "$key" in C19-A2) extra="C16";; C09-B) extra="C04";; esac
-  res=$(timeout 1500 tools/try_mutant.sh "/verif/$d/patch.diff" $id $extra 2>&1 | grep -E "^(VIOLATION|patch does not apply|/repo dirty)" | awk '{print $1,$2}' | sort | uniq -c | tr '\n' ';')
+  res=$(timeout 1500 tools/try_mutant.sh "/verif/$d/patch.diff" $id $extra 2>&1 | grep -a -E "^(VIOLATION|patch does not apply|/repo dirty)" | awk '{print $1,$2}' | sort | uniq -c | tr '\n' ';')
   echo "$key: ${res:-MISSED}"
 done
 find replays -name '*.json' -delete
